@@ -190,6 +190,10 @@ func flashHdr(b []byte) string {
 }
 
 func (h HReq) wire() []byte {
+	if h.Kind == "unrouted" {
+		// a request that enters no route at all (404 written by the error handler), possibly with a flash cookie
+		return []byte(fmt.Sprintf("GET /no/such/route/%d?a=qa%d HTTP/1.1\r\nHost: h%d.sub.test\r\nX-A: ha%d\r\nCookie: a=ca%d%s\r\n\r\n", h.I, h.I, h.I, h.I, h.I, flashHdr(h.Flash)))
+	}
 	if h.Kind == "root" {
 		return []byte(fmt.Sprintf("GET /L%d?a=qa%d HTTP/1.1\r\nHost: h%d.sub.test\r\nX-A: ha%d\r\n\r\n", h.I, h.I, h.I, h.I))
 	}
@@ -453,6 +457,14 @@ func genCase(t *rapid.T) Case {
 	for i := 0; i < n; i++ {
 		h := HReq{Kind: "dirty", I: i + 1, Method: rapid.SampledFrom([]string{"GET", "POST", "PUT"}).Draw(t, "m"), P2: rapid.Bool().Draw(t, "p2"),
 			NewConn: rapid.IntRange(0, 4).Draw(t, "newconn") == 0}
+		if rapid.IntRange(0, 9).Draw(t, "unrouted") == 0 {
+			h.Kind = "unrouted"
+			if rapid.IntRange(0, 3).Draw(t, "uflash") != 0 {
+				h.Flash = genFlash(t, "uf")
+			}
+			c.Hist = append(c.Hist, h)
+			continue
+		}
 		if rapid.IntRange(0, 9).Draw(t, "rootreq") == 0 {
 			h.Kind = "root"
 			c.Hist = append(c.Hist, h)
